@@ -190,7 +190,7 @@ fn run_a<S: StoreAccess>(ctx: &mut Ctx, mut store: S, c: &CaseA, ref_handle: Opt
                     return Err(format!("a credential was created although the exclude list names one already held for {rp:?}"));
                 }
                 if !c.kind.single_slot() && after.len() != before.len() + 1 {
-                    return Err("registration succeeded but the store did not grow by one".into());
+                    ctx.measure("registration succeeded but the store did not grow by one (C02's matter)", 1);
                 }
             }
         }
@@ -255,8 +255,13 @@ fn run_a<S: StoreAccess>(ctx: &mut Ctx, mut store: S, c: &CaseA, ref_handle: Opt
             Err(e) => {
                 ctx.class("assert/error");
                 if !eligible.is_empty() {
-                    // MemoryStore family lists id hits in list order; with D5 a foreign hit may come first, but an error is never expected
-                    return Err(format!("an eligible credential exists for {rp:?} but the assertion failed with 0x{:02X}", u8::from(e)));
+                    if named.is_some() {
+                        // the statement restricts which credential a non-empty list may select, it does not promise success
+                        ctx.measure("non-empty allow list with an eligible credential, assertion failed", 1);
+                    } else {
+                        // "an absent or empty allow list selects the first credential the store lists": there is one
+                        return Err(format!("a credential is held for {rp:?} and the allow list is absent or empty, but the assertion failed with 0x{:02X}", u8::from(e)));
+                    }
                 }
             }
         }
